@@ -4501,7 +4501,10 @@ impl JsrPackageVersionInfoExt {
   pub fn get_subpath<'a>(&self, specifier: &'a Url) -> Option<&'a str> {
     let base_url = self.base_url.as_str();
     let base_url = base_url.strip_suffix('/').unwrap_or(base_url);
-    specifier.as_str().strip_prefix(base_url)
+    let sub_path = specifier.as_str().strip_prefix(base_url)?;
+    // only a path inside this package's directory: the URL of another version
+    // whose text merely starts with this version (`1.0.0-beta`) is not one
+    sub_path.starts_with('/').then_some(sub_path)
   }
 
   pub fn get_checksum(&self, sub_path: &str) -> Result<&str, ModuleLoadError> {
